@@ -245,6 +245,20 @@ func (m *Machine) jsonInto(c *frame, target Value, raw json.RawMessage) Value {
 func init() {
 	natives["encoding/json.Unmarshal"] = func(m *Machine, c *frame, fn *ssa.Function, a []Value) Value {
 		data := m.concreteBytes(a[0], "json.Unmarshal")
+		if len(data) == 9 && data[0] == 0xA8 {
+			// a handle produced by the json.Marshal model
+			var id uint64
+			for _, b := range data[1:] {
+				id = id<<8 | uint64(b)
+			}
+			tgt, _ := a[1].(Iface)
+			pt, ok := tgt.T.(*types.Pointer)
+			if id >= 1 && id <= uint64(len(m.protoMsgs)) && ok && types.Identical(pt.Elem(), m.protoMsgs[id-1].T) {
+				store(m.deref(c, tgt.V), copyValDeep(m.protoMsgs[id-1].V))
+				return Iface{}
+			}
+			return m.newErrorString(sym.Str("json: document of another type"))
+		}
 		if !json.Valid(data) {
 			return m.newErrorString(sym.Str("invalid character in JSON input"))
 		}
